@@ -44,7 +44,7 @@ theorem step_openE (cfg : Cfg) (h3 : Fixed3 cfg) (s t : St) (f : Bool)
 def JInv (s : St) : Prop :=
   ((s.eh = .hasperr ∨ s.eh = .closing) → s.ehTok = true ∧ tot srW s.ws = 0) ∧ tot srW s.ws ≤ b2n s.ehTok
 
-theorem step_jinv (s t : St) (f : Bool) (cfg : Cfg) (hm : cfg.m = .asCoded)
+theorem step_jinv (s t : St) (f : Bool) (cfg : Cfg) (hm : cfg.m = .asCoded cfg.closeSel)
     (h4 : cfg.setReadOnlyReleasesOnClose = true ∨ NoSR s) (nc : NoCorr s) (hE : TokE s)
     (h : Step cfg f s t) (inv : JInv s) : JInv t := by
   unfold JInv TokE NoCorr at *
@@ -367,6 +367,11 @@ theorem step_jinv (s t : St) (f : Bool) (cfg : Cfg) (hm : cfg.m = .asCoded)
     have l0 := le_tot srW _ _ _ hi
     have l1 := le_tot tokW _ _ _ hi
     (try simp only [St.setDone, St.setBg, ↓reduceIte, Bool.false_eq_true, Bool.and_false, Bool.and_true, Bool.false_and, Bool.true_and]) <;> (repeat' split) <;> simp_all [tot_set_eq _ _ _ _ _ hi, tot_ackWs_srw', tot_ackWs_tok, b2n_true, b2n_false, srW, tokW, St.bg, onOk, onErr, selNext, afterSetErr, srAllW, nextC, corrB, corrPh_run] <;> (try omega) <;> (try (cases hk : s.ehTok <;> simp_all [b2n_true, b2n_false] <;> omega))
+  | clAcqKept _ i hi he hk hs =>
+    clear h4
+    have l0 := le_tot srW _ _ _ hi
+    have l1 := le_tot tokW _ _ _ hi
+    (try simp only [St.setDone, St.setBg, ↓reduceIte, Bool.false_eq_true, Bool.and_false, Bool.and_true, Bool.false_and, Bool.true_and]) <;> (repeat' split) <;> simp_all [tot_set_eq _ _ _ _ _ hi, tot_ackWs_srw', tot_ackWs_tok, b2n_true, b2n_false, srW, tokW, St.bg, onOk, onErr, selNext, afterSetErr, srAllW, nextC, corrB, corrPh_run] <;> (try omega) <;> (try (cases hk : s.ehTok <;> simp_all [b2n_true, b2n_false] <;> omega))
   | clWait _ i hi hm ht =>
     clear h4
     have l0 := le_tot srW _ _ _ hi
@@ -433,7 +438,7 @@ theorem step_jinv (s t : St) (f : Bool) (cfg : Cfg) (hm : cfg.m = .asCoded)
 /-- exact accounting in runs without corruption errors -/
 def ExactJ (s : St) : Prop := TokE s ∧ JInv s ∧ NoCorr s
 
-theorem step_exactJ (cfg : Cfg) (h3 : Fixed3 cfg) (hm : cfg.m = .asCoded) (s t : St) (f : Bool)
+theorem step_exactJ (cfg : Cfg) (h3 : Fixed3 cfg) (hm : cfg.m = .asCoded cfg.closeSel) (s t : St) (f : Bool)
     (h4 : cfg.setReadOnlyReleasesOnClose = true ∨ NoSR s) (h : Step cfg f s t) (inv : ExactJ s) : ExactJ t := by
   obtain ⟨hE, hJ, hN⟩ := inv
   refine ⟨step_tokE s t f cfg h3 h4 (fun hp => ?_) (fun hc => (hJ.1 (Or.inr hc)).1) h hE,
@@ -448,7 +453,7 @@ token into `writeLockC`, and only its `closeC` case takes that token out again -
 def KInv (s : St) : Prop :=
   (s.eh ≠ .exited → s.cwl = true → s.ehTok = true) ∧ (s.eh = .closing → s.cwl = true)
 
-theorem step_kinv (s t : St) (f : Bool) (cfg : Cfg) (hm : cfg.m = .asCoded) (ns : NoSR s)
+theorem step_kinv (s t : St) (f : Bool) (cfg : Cfg) (hm : cfg.m = .asCoded cfg.closeSel) (ns : NoSR s)
     (h : Step cfg f s t) (inv : KInv s) : KInv t := by
   unfold KInv NoSR at *
   obtain ⟨k1, k2⟩ := inv
@@ -587,6 +592,8 @@ theorem step_kinv (s t : St) (f : Bool) (cfg : Cfg) (hm : cfg.m = .asCoded) (ns 
     (try simp only [St.setDone, St.setBg, ↓reduceIte, Bool.false_eq_true, Bool.and_false, Bool.and_true, Bool.false_and, Bool.true_and]) <;> (repeat' split) <;> simp_all [srAllW, St.bg, onOk, onErr, selNext, afterSetErr, nextC, tot_ackWs_srall]
   | clAcq _ i hi ht =>
     (try simp only [St.setDone, St.setBg, ↓reduceIte, Bool.false_eq_true, Bool.and_false, Bool.and_true, Bool.false_and, Bool.true_and]) <;> (repeat' split) <;> simp_all [srAllW, St.bg, onOk, onErr, selNext, afterSetErr, nextC, tot_ackWs_srall]
+  | clAcqKept _ i hi he hk hs =>
+    (try simp only [St.setDone, St.setBg, ↓reduceIte, Bool.false_eq_true, Bool.and_false, Bool.and_true, Bool.false_and, Bool.true_and]) <;> (repeat' split) <;> simp_all [srAllW, St.bg, onOk, onErr, selNext, afterSetErr, nextC, tot_ackWs_srall]
   | clWait _ i hi hm ht =>
     (try simp only [St.setDone, St.setBg, ↓reduceIte, Bool.false_eq_true, Bool.and_false, Bool.and_true, Bool.false_and, Bool.true_and]) <;> (repeat' split) <;> simp_all [srAllW, St.bg, onOk, onErr, selNext, afterSetErr, nextC, tot_ackWs_srall]
   | ehAcquire _ he ht =>
@@ -629,7 +636,7 @@ theorem step_kinv (s t : St) (f : Bool) (cfg : Cfg) (hm : cfg.m = .asCoded) (ns 
   | bgExit _ b w ph hb hx =>
     cases b <;> (try simp only [St.setDone, St.setBg, ↓reduceIte, Bool.false_eq_true, Bool.and_false, Bool.and_true, Bool.false_and, Bool.true_and]) <;> (repeat' split) <;> simp_all [srAllW, St.bg, onOk, onErr, selNext, afterSetErr, nextC, tot_ackWs_srall]
 
-theorem noSR_closing (cfg : Cfg) (hm : cfg.m = .asCoded) (s : St) (hr : ReachableNoSR cfg s) :
+theorem noSR_closing (cfg : Cfg) (hm : cfg.m = .asCoded cfg.closeSel) (s : St) (hr : ReachableNoSR cfg s) :
     s.eh = .closing → s.ehTok = true := by
   obtain ⟨n, hs⟩ := hr
   have key : ∀ s, Steps cfg (initNoSR n) s → NoSR s ∧ KInv s := by
@@ -649,7 +656,7 @@ def HInv (s : St) : Prop :=
   (s.cwl = true → s.eh ≠ .exited → s.ehTok = true ∧ tot srW s.ws = 0) ∧ tot srW s.ws ≤ b2n s.ehTok ∧
   (s.eh = .closing → s.cwl = true)
 
-theorem step_hinv (s t : St) (f : Bool) (cfg : Cfg) (hm : cfg.m = .asCoded) (hh : cfg.HandsOver)
+theorem step_hinv (s t : St) (f : Bool) (cfg : Cfg) (hm : cfg.m = .asCoded cfg.closeSel) (hh : cfg.HandsOver)
     (h4 : cfg.setReadOnlyReleasesOnClose = true) (hE : TokE s) (h : Step cfg f s t) (inv : HInv s) : HInv t := by
   unfold HInv TokE at *
   obtain ⟨k1, k2, k3⟩ := inv
@@ -908,6 +915,10 @@ theorem step_hinv (s t : St) (f : Bool) (cfg : Cfg) (hm : cfg.m = .asCoded) (hh 
     have l0 := le_tot srW _ _ _ hi
     have l1 := le_tot tokW _ _ _ hi
     (try simp only [St.setDone, St.setBg, ↓reduceIte, Bool.false_eq_true, Bool.and_false, Bool.and_true, Bool.false_and, Bool.true_and]) <;> (repeat' split) <;> simp_all [tot_set_eq _ _ _ _ _ hi, tot_ackWs_srw', tot_ackWs_tok, b2n_true, b2n_false, srW, tokW, St.bg, onOk, onErr, selNext, afterSetErr, srAllW, nextC, roSets] <;> (try omega) <;> (try (cases hk : s.ehTok <;> cases hk2 : s.cwl <;> simp_all [b2n_true, b2n_false] <;> omega))
+  | clAcqKept _ i hi he hk hs =>
+    have l0 := le_tot srW _ _ _ hi
+    have l1 := le_tot tokW _ _ _ hi
+    (try simp only [St.setDone, St.setBg, ↓reduceIte, Bool.false_eq_true, Bool.and_false, Bool.and_true, Bool.false_and, Bool.true_and]) <;> (repeat' split) <;> simp_all [tot_set_eq _ _ _ _ _ hi, tot_ackWs_srw', tot_ackWs_tok, b2n_true, b2n_false, srW, tokW, St.bg, onOk, onErr, selNext, afterSetErr, srAllW, nextC, roSets] <;> (try omega) <;> (try (cases hk : s.ehTok <;> cases hk2 : s.cwl <;> simp_all [b2n_true, b2n_false] <;> omega))
   | clWait _ i hi hm ht =>
     have l0 := le_tot srW _ _ _ hi
     have l1 := le_tot tokW _ _ _ hi
@@ -955,7 +966,7 @@ theorem step_hinv (s t : St) (f : Bool) (cfg : Cfg) (hm : cfg.m = .asCoded) (hh 
 /-- exact accounting in every run of a configuration with the hand-over of 832d000 -/
 def ExactH (s : St) : Prop := TokE s ∧ HInv s
 
-theorem step_exactH (cfg : Cfg) (h3 : Fixed3 cfg) (hm : cfg.m = .asCoded) (hh : cfg.HandsOver)
+theorem step_exactH (cfg : Cfg) (h3 : Fixed3 cfg) (hm : cfg.m = .asCoded cfg.closeSel) (hh : cfg.HandsOver)
     (h4 : cfg.setReadOnlyReleasesOnClose = true) (s t : St) (f : Bool) (h : Step cfg f s t) (inv : ExactH s) :
     ExactH t := by
   obtain ⟨hE, hH⟩ := inv
